@@ -18,6 +18,32 @@ OptArea1(size, pos, kind, len) ==
 OptFrame(link, ver, size, pos, kind, len, flags) ==
   Frame(link, WithOpts([BaseHdr(ver) EXCEPT !.flags = flags, !.ack = IF flags = SYN THEN Zero4 ELSE <<0, 0, 0, 9>>], OptArea1(size, pos, kind, len)))
 
+\* ---- HTTP/2: every (type, flags, stream, payload length, first payload byte, declared-length error) frame shape.
+\* The first payload byte is the pad length when PADDED is set, the first byte of the dependency when PRIORITY is set,
+\* the first block byte otherwise; the rest of the payload is 0x82 (indexed field :method GET).
+H2Preface == <<80, 82, 73, 32, 42, 32, 72, 84, 84, 80, 47, 50, 46, 48, 13, 10, 13, 10, 83, 77, 13, 10, 13, 10>>
+H2Raw(type, flags, stream, declared, payload) == <<0>> \o U16(declared) \o <<type, flags, 0, 0, 0, stream>> \o payload
+H2Shape(type, flags, stream, n, b0, delta) ==
+  H2Raw(type, flags, stream, IF n + delta < 0 THEN 0 ELSE n + delta, [i \in 1..n |-> IF i = 1 THEN b0 ELSE 130])
+H2Conn(prefix, frame, tail) ==
+  (IF prefix THEN H2Preface \o H2Raw(4, 0, 0, 0, <<>>) ELSE <<>>) \o frame
+  \o (IF tail THEN H2Raw(1, 5, 1, 4, <<130, 132, 134, 65>>) ELSE <<>>)
+
+\* ---- TLS: a ClientHello in which one length field is off by `delta` (fields: record, handshake, session id, cipher list,
+\* compression list, extension block, first extension, SNI list, SNI name)
+TlsHelloWith(field, delta) ==
+  LET name == <<97, 46, 98>>
+      adj(f, x) == IF field = f THEN (IF x + delta < 0 THEN 0 ELSE x + delta) ELSE x
+      sni == U16(adj("snilist", Len(name) + 3)) \o <<0>> \o U16(adj("sniname", Len(name))) \o name
+      ext1 == U16(0) \o U16(adj("ext", Len(sni))) \o sni
+      ext2 == U16(43) \o U16(3) \o <<2, 3, 4>>
+      exts == ext1 \o ext2
+      body == <<3, 3>> \o [i \in 1..32 |-> i] \o <<adj("sid", 0) % 256>> \o U16(adj("ciphers", 4)) \o <<19, 1, 19, 2>> \o <<adj("comps", 1) % 256, 0>>
+              \o U16(adj("exts", Len(exts))) \o exts
+      hs == <<1, 0>> \o U16(adj("hs", Len(body))) \o body
+  IN <<22, 3, 1>> \o U16(adj("rec", Len(hs))) \o hs
+TlsFields == {"rec", "hs", "sid", "ciphers", "comps", "exts", "ext", "snilist", "sniname"}
+
 \* the recorded event of one call
 FeedOk(outcome) == outcome \in {"ok", "err"}
 =============================================================================
